@@ -1,6 +1,8 @@
-"""Sidecar contract for pydra.engine.result:copyfile_workflow (C33): every output field of a workflow result is passed
-through copy_nested_files with the workflow directory as destination, and what that call returns is what the field holds
-afterwards (no field is skipped, none is collected anywhere else)."""
+"""Sidecar contract for pydra.engine.result:copyfile_workflow (C33): whenever an output field of a workflow result is
+passed through copy_nested_files, the destination is the workflow directory, the mode is hardlink_or_copy (never one that
+may leave the file where it is) and what the call returns is what that field holds afterwards; a field that is not passed
+through it is not written.  WHICH fields hold files (and so must be collected) is not decidable here: that every file is
+collected is the bounded part of C33."""
 import z3
 
 from pyvc.engine import is_z3, to_U
@@ -10,6 +12,9 @@ from pyvc.verify import Contract
 def contract():
     def collected_into_the_workflow_directory(E, st, events):
         calls = [e for e in events if e.name == "copy_nested_files"]
+        sets_ = [x for x in events if x.name == "setattr" and not x.raised]
+        if not calls:
+            return not sets_  # a field left alone (e.g. a plain value skipped by a guard) is not rewritten
         if len(calls) != 1 or calls[0].raised:
             return False
         e = calls[0]
@@ -38,7 +43,7 @@ def contract():
             "set": {"kind": "effect", "may_raise": False},
         },
         attrs={"name": {"kind": "U"}},
-        loops={"attrs_fields(outputs)": {"invariants": [], "iteration_ensures": [("every-output-field-is-collected-into-the-workflow-directory", "property:C33", collected_into_the_workflow_directory)]}},
+        loops={"attrs_fields(outputs)": {"invariants": [], "iteration_ensures": [("collected-fields-go-into-the-workflow-directory-and-are-stored-back", "property:C33", collected_into_the_workflow_directory)]}},
         min_paths=2,
         trusted=["copy_nested_files copies/links every file-set found in the value into dest_dir (its own behaviour is the bounded part of C33)"],
     )
